@@ -5,6 +5,12 @@ discovery/JWKS server); a termination signal (SIGTERM / SIGHUP / SIGINT / SIGQUI
 before the signal, during the wait-before period and after it; FURTHER termination signals (a second, third, fourth one of
 each kind) at planned instants inside the wait-before period and inside the drain; observed: connection refused / response
 completed / cut, exit time and status (killed by signal k = status -k).
+Request KINDS: besides requests proxied to the slow upstream, requests that make the binary do its own back-channel work
+while it shuts down, against a complete fake OpenID provider (harness/cmd/wwh/shutdownidp.go): full logins (login ->
+authorization endpoint -> callback -> token exchange; service time = the token endpoint's answer time), with and without a
+key rotation at the provider before the signal / during the wait-before period (the callback then refreshes the JWKS),
+session refreshes (refresh grant) and logouts; before the signal, during the wait-before period, after the close. To the
+model and to the monitor they are requests with an arrival and a service time like any other.
 Compared with Model/Shutdown.v: accepted flags, completed flags and exit status EXACTLY, exit time within TOL.
 Flakiness policy: no retries. Scenarios keep every planned instant at least 150 ms away from every instant at which
 the outcome changes (listener close, Shutdown's poll windows incl. their up-to-10 % jitter, the deadline), and no scenario
@@ -26,6 +32,10 @@ LATE = int(0.1 * SEC)      # a scenario in which the DRIVER issued a request or 
 DRAIN_MARGIN = int(0.08 * SEC)   # "exits successfully as soon as they have": claimed when every accepted request was OBSERVED to
 #                                  complete and was planned to do so at least this long before the end of the graceful period
 TERMINATION = {1: "SIGHUP", 2: "SIGINT", 3: "SIGQUIT", 15: "SIGTERM"}   # "a termination signal" (those a process can act on)
+# what a request makes the process do (harness/cmd/wwh/shutdownidp.go); to the property they are all "requests"
+KINDS = {0: "request proxied to the upstream", 1: "login (callback waiting for the token endpoint)",
+         2: "login after a key rotation at the provider (callback waiting for the token endpoint, then refreshing the JWKS)",
+         3: "session refresh (waiting for the token endpoint)", 4: "logout"}
 
 
 def status_text(code):
@@ -46,10 +56,11 @@ def parse(infile, implfile, modelfile):
             sig_at = [int(x) for x in rest[2].split()] if len(rest) > 3 else [0]
             sig_kind = [int(x) for x in rest[3].split()] if len(rest) > 3 else [15]
             sync = [int(x) for x in rest[4].split()] if len(rest) > 4 else [0] * len(arr)
+            kinds = [int(x) for x in rest[5].split()] if len(rest) > 5 else [0] * len(arr)
             n = len(arr)
             m = [int(x) for x in lm.split()]
             base = {"input": li.strip(), "impl": la.strip(), "model": lm.strip(), "W": W, "G": G, "arr": arr, "svc": svc,
-                    "sig_at": sig_at, "sig_kind": sig_kind, "sync": sync, "m_started": m[0], "robust": True}
+                    "sig_at": sig_at, "sig_kind": sig_kind, "sync": sync, "kinds": kinds, "m_started": m[0], "robust": True}
             if la.startswith("R"):
                 base.update({"refused": True, "ref_class": int(la.split()[1])})
                 rows.append(base)
@@ -63,9 +74,10 @@ def parse(infile, implfile, modelfile):
             ends = [int(x) for x in a[3].split()]
             starts = [int(x) for x in a[4].split()] if len(a) > 4 else arr
             sent = [int(x) for x in a[5].split()] if len(a) > 5 else sig_at
+            http = [int(x) for x in a[6].split()] if len(a) > 6 else [0] * n
             late = max([abs(x - y) for x, y in zip(starts, arr)] + [abs(x - y) for x, y in zip(sent, sig_at)] + [0])
             rows.append({"input": li.strip(), "impl": la.strip(), "model": lm.strip(), "W": W, "G": G, "arr": arr, "svc": svc,
-                         "sig_at": sig_at, "sig_kind": sig_kind, "sync": sync, "robust": (m[4 + 2 * n] == 1) if len(m) > 4 + 2 * n else True,
+                         "sig_at": sig_at, "sig_kind": sig_kind, "sync": sync, "kinds": kinds, "http": http, "robust": (m[4 + 2 * n] == 1) if len(m) > 4 + 2 * n else True,
                          "driver_late_ns": late, "starts": starts, "refused": False, "m_started": 0 if model_refused_only else 1, "model_refused_only": model_refused_only,
                          "exit": exit_ns, "code": exit_code, "acc": acc, "comp": comp, "ends": ends,
                          "m_close": m[0], "m_deadline": m[1], "m_exit": m[2], "m_code": m[3],
@@ -145,10 +157,11 @@ def monitor(ctx, rows, notes):
             continue
         case = {"scenario": notes[i] if i < len(notes) else "", "W_ns": W, "G_ns": G,
                 "requests_(arrival_ns,service_ns)": list(zip(r["arr"], r["svc"])),
+                "request_kinds": [KINDS.get(k, str(k)) for k in r["kinds"]],
                 "signals_(instant_ns,number)": list(zip(r["sig_at"], r["sig_kind"])),
                 "observed": {"exit_ns": r["exit"], "exit_status": r["code"], "status": status_text(r["code"]), "accepted": r["acc"],
-                             "completed": r["comp"], "end_ns": r["ends"]}}
-        sig.add((W, G, tuple(r["acc"]), tuple(r["comp"]), r["code"], tuple(r["sig_kind"]), tuple(a < W for a in r["sig_at"][1:])))
+                             "completed": r["comp"], "end_ns": r["ends"], "http_status": r["http"]}}
+        sig.add((W, G, tuple(r["acc"]), tuple(r["comp"]), r["code"], tuple(r["sig_kind"]), tuple(a < W for a in r["sig_at"][1:]), tuple(r["kinds"])))
         # the property speaks about termination signals; a scenario that also sends a signal no process can act on
         # (SIGKILL: the driver's control that a killed process is observed as such) is outside it
         if any(k not in TERMINATION for k in r["sig_kind"]):
@@ -171,17 +184,26 @@ def monitor(ctx, rows, notes):
             ctx.violation("gone-before-wait-before-elapsed", "the process was gone (%s) %.2f s after the signal, before the wait-before period of %.2f s was over%s"
                           % (status_text(r["code"]), r["exit"] / SEC, W / SEC, more), case)
         fins = []
-        for a, d, acc, comp, end in zip(r["arr"], r["svc"], r["acc"], r["comp"], r["ends"]):
+        for a, d, acc, comp, end, kind, http in zip(r["arr"], r["svc"], r["acc"], r["comp"], r["ends"], r["kinds"], r["http"]):
+            what = "" if kind == 0 else " [%s]" % KINDS.get(kind, str(kind))
             # keeps serving during the wait-before period, then stops accepting
             if a < W - MARGIN and not acc:
                 ctx.violation("refused-during-wait-before", "a request arriving %.2f s after the signal, before the end of the wait-before period (%.2f s), was refused%s"
                               % (a / SEC, W / SEC, more), case)
             if a > W + MARGIN and a > MARGIN and acc:
                 ctx.violation("accepted-after-wait-before", "a connection was accepted after the wait-before period", case)
+            # keeps SERVING: a request accepted while the process serves (wait-before period or drain) and ANSWERED, but with a
+            # failure instead of what that kind of request is answered with, was not served
+            if acc and not comp and http != 0 and a + d <= G - MARGIN:
+                ctx.violation("answered-with-failure-during-shutdown", "an accepted request%s arriving %.2f s after the signal was answered with HTTP status %d at %.2f s instead of being served (wait-before %.2f s, graceful %.2f s)%s"
+                              % (what, a / SEC, http, end / SEC, W / SEC, G / SEC, more), case)
             # no accepted request is cut off while time remains
-            if acc and a + d <= G - MARGIN and not comp:
-                ctx.violation("cut-off-while-time-remains", "an accepted request that needed until %.2f s (< graceful %.2f s) was cut off at %.2f s; the process: %s at %.2f s%s"
-                              % ((a + d) / SEC, G / SEC, end / SEC, status_text(r["code"]), r["exit"] / SEC, more), case)
+            elif acc and a + d <= G - MARGIN and not comp:
+                ctx.violation("cut-off-while-time-remains", "an accepted request%s that needed until %.2f s (< graceful %.2f s) was cut off at %.2f s without an answer; the process: %s at %.2f s%s"
+                              % (what, (a + d) / SEC, G / SEC, end / SEC, status_text(r["code"]), r["exit"] / SEC, more), case)
+            # ... and is answered when its work is done, not later (it does not hang until the process goes away)
+            elif acc and comp and a + d <= G - MARGIN and end > a + d + TOL:
+                ctx.violation("answered-late", "an accepted request%s that needed until %.2f s was answered only at %.2f s" % (what, (a + d) / SEC, end / SEC), case)
             # ... nor, when it cannot complete within the graceful period, before that period is over
             elif acc and not comp and end < min(a + d, G) - MARGIN:
                 ctx.violation("cut-off-before-graceful-period-over", "an accepted request (needing until %.2f s) was cut off at %.2f s although the graceful period lasts until %.2f s; the process: %s at %.2f s%s"
@@ -228,7 +250,11 @@ def run(ctx):
                 "second signal of each of the four kinds {inside the wait-before period, inside the drain (every other kind followed by a third), "
                 "inside the wait-before period followed by a third and fourth inside the drain} with a request in flight, a request arriving after the "
                 "second signal but before the listener closes, and a connection attempt after it; idle + second signal; a SIGKILL control; "
-                "thorough tier adds 96 random request mixes, half of them with 1-3 further signals. distinct_nontrivial = distinct (setting, accepted vector, "
+                "back-channel kinds: (wait-before, graceful) in {(1s,3s),(0.5s,2s),(0,2s)} x {no key rotation, rotation before the signal (+ again in the wait-before period), "
+                "rotation in the wait-before period} x {login in flight at the signal and answered in the drain, login inside the wait-before period, session refresh "
+                "accepted in the wait-before period and answered in the drain, logout, proxied request, login / logout / refresh after the close}; a login whose token "
+                "exchange outlasts the graceful period; "
+                "thorough tier adds 96 random request mixes (half of the requests of a back-channel kind), half of them with 1-3 further signals. distinct_nontrivial = distinct (setting, accepted vector, "
                 "completed vector, exit status) signatures")
     ctx.assumptions += [
         "PARTIAL: Model/Shutdown.v is a timeline model of the order Sleep(W) -> http.Server.Shutdown(ctx, timeout G - W) -> exit 0 / log.Fatalf "
@@ -239,6 +265,11 @@ def run(ctx):
         "the channel is read once; the Go runtime's delivery (non-blocking send, default disposition of unregistered signals) is exercised, not proved; "
         "c19_first_signal_only: the model's outcome does not depend on further registered signals",
         "hijacked connections (WebSocket upgrades) are not tracked by Shutdown and are outside the model",
+        "request kinds: the model does not distinguish them (a request = arrival + service time); for a login / session refresh the service time is the "
+        "time the fake provider's token endpoint takes (the few ms of the login's redirect steps and of wonderwall's own processing are inside the 150 ms margins); "
+        "'served' means answered with what that kind is answered with when the process is not shutting down (login: 302 + session cookie, or after a key "
+        "rotation the automatic retry 307 -> /oauth2/login; refresh: 200 + session metadata; logout: 302 to the end-session endpoint); access tokens of the "
+        "fake provider live 1 s so that a session can be refreshed 0.5 s after its creation",
         "real-time comparison: flags and exit status exact, exit time within 0.7 s; no retries; planned instants are kept >= 150 ms away from "
         "every instant at which the outcome changes (listener close, poll windows with jitter, deadline); no scenario depends on the deadline beating "
         "the next possible poll by < 250 ms; the known finding is shown with Shutdown timeout 761 ms and a completion synchronised to the close instant "
